@@ -728,7 +728,12 @@ func (ex *Exec) enterLoop(h *ssa.BasicBlock, li *loopInfo, preds []*ssa.BasicBlo
 		for k, inv := range li.spec.Invariants {
 			t, err := env.Goal(inv.E)
 			if err != nil {
-				unsup("loop %d invariant %d: %v", li.index, k, err)
+				if !strings.Contains(err.Error(), "unknown identifier") {
+					unsup("loop %d invariant %d: %v", li.index, k, err)
+				}
+				// the invariant names a local that is not carried by this
+				// loop (any more): it cannot be established
+				t = "false"
 			}
 			lbl := inv.Label
 			ex.addObl(fmt.Sprintf("loop%d/inv-init", li.index), lbl, ex.reach[h], t, li.pos, inv.Text, false)
@@ -765,7 +770,10 @@ func (ex *Exec) enterLoop(h *ssa.BasicBlock, li *loopInfo, preds []*ssa.BasicBlo
 		for _, inv := range li.spec.Invariants {
 			t, err := env2.Bool(inv.E)
 			if err != nil {
-				unsup("loop %d invariant: %v", li.index, err)
+				if !strings.Contains(err.Error(), "unknown identifier") {
+					unsup("loop %d invariant: %v", li.index, err)
+				}
+				continue // not assumable: nothing is assumed
 			}
 			c.assume(imp(ex.reach[h], t))
 		}
@@ -1317,6 +1325,56 @@ func (ex *Exec) touchMap(mt *types.Map) {
 	}
 }
 
+// breakEdges: step clauses speak about every completed iteration, and the
+// conclusions drawn from them ("every element is processed") need the loop
+// to run to the end of its range. An edge from inside the body to the block
+// the loop header exits to (a `break`) is therefore an obligation that the
+// edge cannot be taken — for loops that have step clauses.
+func (ex *Exec) breakEdges(b *ssa.BasicBlock) {
+	for h, li := range ex.loops {
+		if li.spec == nil || len(li.spec.Steps) == 0 || b == h || !li.body[b] {
+			continue
+		}
+		var exit *ssa.BasicBlock
+		for _, hs := range h.Succs {
+			if !li.body[hs] {
+				exit = hs
+			}
+		}
+		if exit == nil {
+			continue
+		}
+		for _, s := range b.Succs {
+			if li.body[s] {
+				continue
+			}
+			// an edge that leaves the body and rejoins the code after the
+			// loop (break, goto): early returns and panics do not rejoin
+			seen := map[*ssa.BasicBlock]bool{}
+			var reaches func(x *ssa.BasicBlock) bool
+			reaches = func(x *ssa.BasicBlock) bool {
+				if x == exit {
+					return true
+				}
+				if seen[x] || li.body[x] {
+					return false
+				}
+				seen[x] = true
+				for _, y := range x.Succs {
+					if reaches(y) {
+						return true
+					}
+				}
+				return false
+			}
+			if reaches(s) {
+				ex.addObl(fmt.Sprintf("loop%d/complete", li.index), "", ex.edgeCond(b, s), "false", li.pos,
+					"the loop has per-iteration step clauses and must run to the end of its range: no `break` out of its body", false)
+			}
+		}
+	}
+}
+
 // backEdge is called when a block ends with a jump to a loop header.
 func (ex *Exec) backEdge(from, h *ssa.BasicBlock) {
 	li := ex.loops[h]
@@ -1335,7 +1393,10 @@ func (ex *Exec) backEdge(from, h *ssa.BasicBlock) {
 		for k, inv := range li.spec.Invariants {
 			t, err := env.Goal(inv.E)
 			if err != nil {
-				unsup("loop %d invariant: %v", li.index, err)
+				if !strings.Contains(err.Error(), "unknown identifier") {
+					unsup("loop %d invariant: %v", li.index, err)
+				}
+				t = "false"
 			}
 			ex.addLoopPart(fmt.Sprintf("loop%d/inv-preserve", li.index), k, inv, cond, t, li.pos)
 		}
